@@ -147,11 +147,22 @@ InterpEv == /\ IsEvent("interp")
                               expected |-> want])
             /\ UNCHANGED <<E, T>>
 
+\* ---- perr: the error value of a failed parse (strum::ParseError) -----------------------------------
+PErr == /\ IsEvent("perr")
+        /\ LET e == Rec[l] IN
+           /\ Require(e.def = E.id /\ ~E.perr /\ ParseSpecT(E, T, e.input).k = "err", l, "perr: event outside the domain", e.def)
+           /\ Require(/\ e.display = ParseErrorDisplay /\ e.dyn_display = ParseErrorDisplay /\ e.padded = ParseErrorDisplay
+                       /\ e.debug = ParseErrorDebug /\ e.descr = ParseErrorDescr
+                       /\ e.source_none /\ e.eq_copy /\ e.hash_same,
+                       l, "perr", [def |-> E.id, display |-> e.display, debug |-> e.debug, padded |-> e.padded,
+                                   source_none |-> e.source_none, eq_copy |-> e.eq_copy, hash_same |-> e.hash_same])
+        /\ UNCHANGED <<E, T>>
+
 \* a panic inside generated code is an event no action of the specification produces
 Panicked == /\ IsEvent("panic")
             /\ Mismatch(l, "panic in generated code", [def |-> Rec[l].def, variant |-> Rec[l].i, msg |-> Rec[l].msg])
             /\ UNCHANGED <<E, T>>
 
-Next == Panicked \/ Fmt \/ Fwd \/ CapRt \/ InterpEv \/ LoadDef \/ Parse \/ Names \/ VNames \/ RoundTrip \/ Sers \/ Conv
+Next == Panicked \/ PErr \/ Fmt \/ Fwd \/ CapRt \/ InterpEv \/ LoadDef \/ Parse \/ Names \/ VNames \/ RoundTrip \/ Sers \/ Conv
 Spec == Init /\ [][Next]_vars
 =============================================================================
